@@ -300,9 +300,12 @@ class LocationToFailAllocNode
 
     bool shouldFail(int allocationNumber, const char* file, size_t line)
     {
-      if (file_ && SimpleString::StrCmp(file, file_) == 0 && line == line_) {
-        actualAllocNumber_++;
-        return actualAllocNumber_ == allocNumberToFail_;
+      if (file_) {
+        if (SimpleString::StrCmp(file, file_) == 0 && line == line_) {
+          actualAllocNumber_++;
+          return actualAllocNumber_ == allocNumberToFail_;
+        }
+        return false;
       }
       if (allocationNumber == allocNumberToFail_)
         return true;
@@ -349,18 +352,21 @@ char* FailableMemoryAllocator::alloc_memory(size_t size, const char* file, size_
     currentAllocNumber_++;
     LocationToFailAllocNode* current = head_;
     LocationToFailAllocNode* previous = NULLPTR;
+    bool failThisAllocation = false;
 
     while (current) {
+      LocationToFailAllocNode* next = current->next_;
       if (current->shouldFail(currentAllocNumber_, file, line)) {
-        if (previous) previous->next_ = current->next_;
-        else head_ = current->next_;
+        if (previous) previous->next_ = next;
+        else head_ = next;
 
         free_memory((char*) current, size, __FILE__, __LINE__);
-        return NULLPTR;
+        failThisAllocation = true;
       }
-      previous = current;
-      current = current->next_;
+      else previous = current;
+      current = next;
     }
+    if (failThisAllocation) return NULLPTR;
     return TestMemoryAllocator::alloc_memory(size, file, line);
 }
 
